@@ -74,6 +74,41 @@ BAD_TEXTS = ["x", "1..2..3", "x..5", "5..y", "08", "0b1", " 5", "", "1 ..2",
              "2b2", "09..12"]
 
 
+# lexeme classes of malformed entries (spec: BadClasses in ValueMap.tla);
+# "junk" = BAD_TEXTS, the others are built from a well-formed entry shape
+LEX_CLASSES = ("udigit", "nl", "ws", "under")
+
+# zero digits of Unicode decimal digit (category Nd) scripts other than
+# US-ASCII: Arabic-Indic, Extended Arabic-Indic, NKo, Devanagari, Bengali,
+# Gurmukhi, Tamil, Thai, Lao, Tibetan, Myanmar, Khmer, Mongolian, Fullwidth,
+# Mathematical Bold / Double-struck / Monospace
+UDIGIT_ZEROS = [0x0660, 0x06F0, 0x07C0, 0x0966, 0x09E6, 0x0A66, 0x0BE6,
+                0x0E50, 0x0ED0, 0x0F20, 0x1040, 0x17E0, 0x1810, 0xFF10,
+                0x1D7CE, 0x1D7D8, 0x1D7F6]
+
+
+def udigit_text(n, rng):
+    """Decimal text of n in which at least one digit is not US-ASCII."""
+    digits = str(abs(n))
+    z = rng.choice(UDIGIT_ZEROS)
+    if rng.random() < 0.6 or len(digits) == 1:
+        out = "".join(chr(z + int(c)) for c in digits)       # one script
+    else:
+        k = rng.randrange(len(digits))                         # mixed
+        out = "".join(chr(z + int(c)) if (i == k or rng.random() < 0.3)
+                      else c for i, c in enumerate(digits))
+    return ("-" if n < 0 else "") + out
+
+
+def under_text(n, rng):
+    """Decimal digits grouped by '_' (Python int() literal syntax)."""
+    digits = str(abs(n))
+    if len(digits) == 1:
+        digits = "0" + digits
+    k = rng.randrange(1, len(digits))
+    return ("-" if n < 0 else "") + digits[:k] + "_" + digits[k:]
+
+
 def octal_has_zero(n):
     return "0" in oct(abs(n))[2:]
 
@@ -122,8 +157,11 @@ class Entry:
     def render(self, rng, force_oct0=False, allow_oct0=False):
         if self.k == "U":
             self.text = ".."
+        elif self.k == "BAD" and self.nt in LEX_CLASSES:
+            self.text = self._render_lex(rng)
         elif self.k == "BAD":
             self.text = rng.choice(BAD_TEXTS)
+            self.nt = "junk"
         else:
             tags = []
 
@@ -143,12 +181,46 @@ class Entry:
                 (tags[0] if len(set(tags)) == 1 else "mix")
         return self
 
+    def _render_lex(self, rng):
+        """Malformed text of lexeme class self.nt whose shape (single, closed
+        range, open low / high end) and numbers are those of this entry: the
+        entry a too lenient reader would take it for."""
+        cls = self.nt
+        single = not (self.lopen or self.hopen or self.lo != self.hi)
+        bounds = [None if self.lopen else self.lo] if single else \
+            [None if self.lopen else self.lo, None if self.hopen else self.hi]
+        closed = [i for i, b in enumerate(bounds) if b is not None]
+        # the offending bound(s): one of the closed bounds, sometimes both
+        off = set([rng.choice(closed)])
+        if len(closed) == 2 and rng.random() < 0.3:
+            off = set(closed)
+        texts = []
+        for i, b in enumerate(bounds):
+            if b is None:
+                texts.append("")
+            elif cls == "nl" or i not in off:
+                texts.append(num_text(b, pick_notation(b, rng), rng)[0])
+            elif cls == "udigit":
+                texts.append(udigit_text(b, rng))
+            elif cls == "under":
+                texts.append(under_text(b, rng))
+            else:                                   # "ws"
+                t = num_text(b, pick_notation(b, rng), rng)[0]
+                w = rng.choice([" ", "\t", "  "])
+                texts.append(w + t if rng.random() < 0.5 else t + w)
+        text = texts[0] if single else texts[0] + ".." + texts[1]
+        if cls == "nl":
+            text += "\n"
+        return text
+
+    def lenient(self):
+        return self.k == "BAD" and self.nt in LEX_CLASSES
+
     def to_json(self, virt):
+        plain = self.k in ("U", "BAD") and not self.lenient()
         return {"k": self.k,
-                "lo": 0 if (self.lopen or self.k in ("U", "BAD"))
-                else virt.c2v(self.lo),
-                "hi": 0 if (self.hopen or self.k in ("U", "BAD"))
-                else virt.c2v(self.hi),
+                "lo": 0 if (self.lopen or plain) else virt.c2v(self.lo),
+                "hi": 0 if (self.hopen or plain) else virt.c2v(self.hi),
                 "lopen": bool(self.lopen or self.k == "U"),
                 "hopen": bool(self.hopen or self.k == "U"),
                 "nt": self.nt}
@@ -184,8 +256,13 @@ def concretize_abstract(amap, tname, rng):
     out = []
     for e in amap:
         k = e["k"]
-        if k in ("U", "BAD"):
+        if k == "U" or (k == "BAD" and e.get("nt") not in LEX_CLASSES):
             out.append(Entry(k).render(rng))
+            continue
+        if k == "BAD":
+            out.append(Entry(k, 0 if e["lopen"] else pt[e["lo"]],
+                             0 if e["hopen"] else pt[e["hi"]],
+                             e["lopen"], e["hopen"], nt=e["nt"]).render(rng))
             continue
         ent = Entry(k, 0 if e["lopen"] else pt[e["lo"]],
                     0 if e["hopen"] else pt[e["hi"]],
@@ -252,8 +329,17 @@ def random_map(tname, rng, maxlen=6):
                 ents.append(Entry("R", a, 0, hopen=True))
             elif r < 0.97 or style == "mixed":
                 ents.append(Entry("U"))
-            else:
+            elif rng.random() < 0.4:
                 ents.append(Entry("BAD"))
+            else:
+                # malformed entry of a lexeme class, any shape
+                sh = rng.randrange(4)
+                if a > b:
+                    a, b = b, a
+                ents.append(Entry("BAD", 0 if sh == 2 else a,
+                                  0 if sh == 3 else (a if sh == 0 else b),
+                                  lopen=(sh == 2), hopen=(sh == 3),
+                                  nt=rng.choice(LEX_CLASSES)))
         if style == "mixed" and rng.random() < 0.5:
             rng.shuffle(ents)
     allow = rng.random() < 0.04
@@ -424,7 +510,8 @@ def run_case(case, repo, rng_mod):
     if vm is None:
         return ev, info
     qs = []
-    for s in list(vals) + [ev["dflt"], "no such string"]:
+    for s in list(vals) + [ev["dflt"], "no such string"] + \
+            list(case.get("queries") or []):
         if s not in qs:
             qs.append(s)
     observe(vm, ev, info, tname, ents, len(vals), qs, case, rng, virt)
@@ -776,5 +863,8 @@ def shape_tag(case, ctor):
         if x in fs:
             return x
     if ctor == "ok":
+        bad = sorted(set(e[5] for e in case["ents"] if e[0] == "BAD"))
+        if bad:
+            return "bad-entry-accepted:" + "+".join(bad)
         return "lookup"
     return "-"
